@@ -27,6 +27,11 @@ def main():
     if "--replay" in args:
         replay = args[args.index("--replay") + 1]
     seed = int(os.environ.get("VERIF_SEED", "0"))
+    # two runs of the same property share coq/Gen/<id>: serialise them
+    os.makedirs(os.path.join(common.COQ, "Gen"), exist_ok=True)
+    import fcntl
+    _lock = open(os.path.join(common.COQ, "Gen", ".%s.lock" % pid), "w")
+    fcntl.flock(_lock, fcntl.LOCK_EX)
     ctx = common.Ctx(pid, tier, seed, replay)
     sys.stdout.flush()
     # The property module runs in a child process: the implementation is compiled code with bounds
